@@ -272,6 +272,7 @@ func (X *Exec) callFuncValue(fr *Frame, ins ssa.Instruction, st *State, f *Val, 
 		key := X.E.P.Keys[clo.Fn]
 		if fs := X.E.Specs.Funcs[key]; fs != nil && !fs.Inline && (len(fs.Ensures) > 0 || len(fs.Requires) > 0 || fs.Pure || fs.ModAll || len(fs.Modifies) > 0) {
 			fake := &ssa.CallCommon{Value: clo.Fn}
+			X.pendingBindings = clo.Bindings
 			return X.applyContract(fr, st, fs, clo.Fn, nil, fake, args, ins.Pos())
 		}
 		if clo.Fn.Blocks != nil && X.canInline(clo.Fn) {
